@@ -275,6 +275,8 @@ def oracle(case, out):
         return "schema read back by the compiler differs from what was registered at " + d
     if not out.get("stable"):
         return "Blueprint::load + persist does not reproduce the persisted bytes"
+    if out.get("overwrites_stale") is False:
+        return "Blueprint::persist left a stale file of the same length in place: the compiler would read the old registrations"
     return None
 
 
